@@ -2,8 +2,8 @@ package main
 
 import (
 	"fmt"
-	"os"
 	"go/types"
+	"os"
 	"sort"
 	"strings"
 
@@ -160,6 +160,9 @@ func checkC12(c *Ctx) {
 	c.NotDec = "value-level round-trip equality (timestamp precision, varint extremes) and protobuf's own marshalling."
 	c.Expect("C12.1", 20)
 	c.Expect("C12.3", 5)
+	// the participants of a BLS aggregate travel as the bytes of a bit field: rebuilding the set from its bytes keeps
+	// the bytes in place and recounts the members (shared with C19.2)
+	c.importFrom(checkC19, "C12.7", "C19.2")
 
 	// ---- C12.1 ----
 	var toFns, fromFns []*ssa.Function
